@@ -1,5 +1,6 @@
 import gzip
 import logging
+import os
 import pathlib
 import tempfile
 
@@ -44,9 +45,13 @@ def dump(path: pathlib.Path, data: StoredState) -> None:
     tmp_path = pathlib.Path(tmp.name)
 
     try:
-        data_string = data.model_dump_json(indent=2, by_alias=True)
-        with gzip.GzipFile(fileobj=tmp, mode="wb") as fp:
-            fp.write(data_string.encode())
+        with tmp:
+            data_string = data.model_dump_json(indent=2, by_alias=True)
+            with gzip.GzipFile(fileobj=tmp, mode="wb") as fp:
+                fp.write(data_string.encode())
+            # The data must have reached the file before it replaces the old one.
+            tmp.flush()
+            os.fsync(tmp.fileno())
         tmp_path.rename(path)
     finally:
         if tmp_path.exists():
